@@ -85,6 +85,18 @@ def gen_cases(rng, tier, scale):
         # p alone on the context it is called with
         ops = list(pre) + [f'regs {x(n_)} {x(s_)}' for n_, s_ in parts.items()] + [f'r 0 {x("p")} {jtok(d)} -1']
         cases.append({'line': f'{grp}p ' + ' ; '.join(ops), 'kind': 'alone', 'grp': grp, 'tpl': body, 'tags': ['alone']})
+    # the indented call as the first thing the template writes, p beginning with a construct that writes through another
+    # frame (a nested partial, a block, an expression) — on every run, through every entry point
+    FIRST = [{'p': '{{> q1}}\nx\n', 'q1': 'after\n'}, {'p': '{{> q1}}\nx\n', 'q1': '{{#each l0}}x{{/each}}{{e}}after\n'},
+             {'p': '{{#if t}}\na\nb\n{{/if}}\nx\n'}, {'p': '{{one}} tail\nx\n'}, {'p': '{{> q1}}', 'q1': '{{> q2}}\ny\n', 'q2': 'deep\n'},
+             {'p': '{{#each l}}\n{{> q1}}\n{{/each}}\n', 'q1': 'it\n'}, {'p': 'plain\n{{> q1}}\n', 'q1': '{{ml}}\n'}]
+    for k, parts in enumerate(FIRST):
+        for W in ('  ', '\t'):
+            for entry in (0, 2, 4, 6, 7):
+                grp = f'ff{k}{len(W)}{ord(W[0])}e{entry}'
+                cases.append(rcase(f'{grp}m', W + '{{> p}}\nZ\n', DATA, partials=parts, entry=entry, kind='main', grp=grp, W=W, where='first', pi=False, tags=['first-fixed']))
+                ops = [f'regs {x(n_)} {x(s_)}' for n_, s_ in parts.items()] + [f'r 0 {x("p")} {jtok(DATA)} -1']
+                cases.append({'line': f'{grp}p ' + ' ; '.join(ops), 'kind': 'alone', 'grp': grp, 'tpl': parts['p'], 'tags': ['alone']})
     return cases
 
 def norm(s):
